@@ -33,6 +33,10 @@ def rdOutcome (c : Ctx) : Rd (Option (V3 α × α)) := do
   let ok ← Rd.int c; let ctr ← Rd.v3 c; let r2 ← Rd.sc c
   pure (if ok = 1 then some (ctr, r2) else none)
 
+/-- one recorded miniball call with the residual nnls reported during it -/
+def rdOutcomeN (c : Ctx) : Rd (Option (V3 α × α) × α) := do
+  let o ← rdOutcome c; let resid ← Rd.sc c; pure (o, resid)
+
 def rdWeighted (c : Ctx) : Rd (α × V3 α) := do
   let l ← Rd.sc c; let p ← Rd.v3 c; pure (l, p)
 
@@ -109,13 +113,36 @@ def run (α : Type) [Scalar α] [Codec α] (op : String) (c : Ctx) : Option (Rd 
       let verts : List (V3 α) ← Rd.list c (Rd.v3 c)
       pure (" ".intercalate (verts.map fun v => Out.v3 (Quat.rotate p v)))
   | "b.minbound" => some do
-      -- in: verts, outcomes of the miniball calls in order, random rotations drawn in order ; out: ball
+      -- in: verts, per miniball call `i<ok> c(3) r2 resid` (resid = what nnls reported during that call; +inf
+      -- if nnls was not called), random rotations drawn in order ; out: ball  (repaired code, da3be45)
       let verts : List (V3 α) ← Rd.list c (Rd.v3 c)
-      let outcomes : List (Option (V3 α × α)) ← Rd.list c (rdOutcome c)
+      let outcomes : List (Option (V3 α × α) × α) ← Rd.list c (rdOutcomeN c)
       let rots : List (Quat α) ← Rd.list c (rdQuat c)
-      let mb : Nat → List (V3 α) → Option (V3 α × α) := fun k _ => (outcomes.getD (k - 1) none)
+      let mb : Nat → List (V3 α) → Option (V3 α × α) := fun k _ => (outcomes.getD (k - 1) (none, Scalar.lit 0)).1
+      let nn : Nat → List (V3 α) → V3 α → α → List α × α :=
+        fun k _ _ _ => ([], (outcomes.getD (k - 1) (none, Scalar.lit 0)).2)
       let rand : Nat → Quat α := fun k => rots.getD (k - 1) Quat.one
-      pure (outBall (minimalBounding mb rand verts))
+      pure (outBall (minimalBounding mb nn rand verts))
+  | "b.accept" => some do
+      -- in: points c r2 resid ; out: `_is_minimal_bounding_ball` (with nnls reporting `resid`), whether the
+      -- test gets as far as calling nnls, number of boundary points, their indices
+      let pts : List (V3 α) ← Rd.list c (Rd.v3 c)
+      let cen : V3 α ← Rd.v3 c
+      let r2 : α ← Rd.sc c
+      let resid : α ← Rd.sc c
+      let acc := isMinimalBoundingBall (fun _ _ _ => ([], resid)) pts cen r2
+      -- nnls is reached iff the test with a zero residual differs from the test with an infinite one
+      let reach := isMinimalBoundingBall (fun _ _ _ => ([], Scalar.lit 0)) pts cen r2
+        && !(isMinimalBoundingBall (fun _ _ _ => ([], Scalar.lit 1)) pts cen r2)
+      let bd := onBoundary (Scalar.q 1 1000000) pts cen r2
+      pure s!"{Out.bool acc} {Out.bool reach} {Out.int bd.length} {" ".intercalate (bd.map Out.v3)}"
+  | "s.nnlsresid" => some do
+      -- in: boundary points c r2 weights ; out: ‖a w − b‖² = ‖Σ w (p − c)‖²/r2 + (Σw − 1)² (exact in Q)
+      let bd : List (V3 α) ← Rd.list c (Rd.v3 c)
+      let cen : V3 α ← Rd.v3 c
+      let r2 : α ← Rd.sc c
+      let w : List α ← Rd.list c (Rd.sc c)
+      pure (Out.sc (nnlsResidSq bd cen r2 w))
   | "b.round" => some do
       let r : α ← Rd.sc c
       let cen : V3 α ← Rd.v3 c
@@ -170,6 +197,56 @@ def run (α : Type) [Scalar α] [Codec α] (op : String) (c : Ctx) : Option (Rd 
       let g := V3.sum (rows.map fun row => V3.smul (row.resid x r) row.a)
       let gk := Scalar.sum (rows.map fun row => row.resid x r * row.k)
       pure s!"{Out.v3 g} {Out.sc gk} {Out.sc (sumSq rows x r)}"
+  | "s.lstsqmin" => some do
+      -- in: rows x r (the answer of LAPACK) ; out: certificate flag of the exact minimiser (x*, r*) found by
+      -- Gauss–Jordan on the normal equations, x* (3) r*, ‖A(x*,r*) − b‖², ‖A(x,r) − b‖² − ‖A(x*,r*) − b‖²
+      -- (meant for Q: everything exact; `lstsqCert_iff`: flag ⇒ (x*, r*) IS the least-squares minimum)
+      let rows : List (Row α) ← Rd.list c (rdRow c)
+      let x : V3 α ← Rd.v3 c
+      let r : α ← Rd.sc c
+      let z := BallSpec.solveNormal rows
+      let cert := BallSpec.lstsqCert rows z.1 z.2
+      let m := sumSq rows z.1 z.2
+      pure s!"{Out.bool cert} {Out.v3 z.1} {Out.sc z.2} {Out.sc m} {Out.sc (sumSq rows x r - m)}"
+  | "s.lstsqcert" => some do
+      -- in: rows x r ; out: do the normal equations hold exactly at (x, r)?
+      let rows : List (Row α) ← Rd.list c (rdRow c)
+      let x : V3 α ← Rd.v3 c
+      let r : α ← Rd.sc c
+      pure (Out.bool (BallSpec.lstsqCert rows x r))
+  | "s.certbracket" => some do
+      -- in: pts c support(λ, p) ; out: side conditions ok?, lower bound Σλ‖s−c*‖²/Σλ, max_i ‖p_i − c‖²
+      -- (`miniball_bracket`: the squared radius of the minimal ball lies between the two numbers)
+      let pts : List (V3 α) ← Rd.list c (Rd.v3 c)
+      let cen : V3 α ← Rd.v3 c
+      let sup : List (α × V3 α) ← Rd.list c (rdWeighted c)
+      let side := BallSpec.certSide pts sup
+      let lo : α := if side then BallSpec.certLower sup else Scalar.lit 0
+      pure s!"{Out.bool side} {Out.sc lo} {Out.sc (BallSpec.maxDistSq pts cen)}"
+  | "s.certexact" => some do
+      -- in: pts c r2 support ; out: exact certificate (`miniball_checker_sound`)
+      let pts : List (V3 α) ← Rd.list c (Rd.v3 c)
+      let cen : V3 α ← Rd.v3 c
+      let r2 : α ← Rd.sc c
+      let sup : List (α × V3 α) ← Rd.list c (rdWeighted c)
+      pure (Out.bool (BallSpec.certExact pts cen r2 sup))
+  | "b.radiusof" => some do
+      -- in: i1 r c(3) (the ball getter returned) | i0 i<kind> (it raised: 0 RuntimeError, 1 ValueError,
+      -- 2 NotImplementedError) ; out: what the `_radius` getter gives
+      let ok ← Rd.int c
+      if ok = 1 then
+        let r : α ← Rd.sc c
+        let cen : V3 α ← Rd.v3 c
+        match radiusOf (deprecatedAlias (.ok ⟨r, cen⟩)) with
+        | .ok v => pure (Out.sc v)
+        | .error e => pure s!"E:{e}"
+      else
+        let k ← Rd.int c
+        let b : Except String (Ball α) :=
+          if k = 0 then .error "RuntimeError" else if k = 1 then .error "ValueError" else notImplemented
+        match radiusOf b with
+        | .ok v => pure (Out.sc v)
+        | .error e => pure s!"E:{e}"
   | _ => none
 
 end OpsC13
